@@ -320,7 +320,8 @@ namespace
         } catch (QPDFExc& e) {
             std::string m = e.what();
             if (m.find("loop detected following xref tables") != std::string::npos) res = "loop";
-            else if (m.find("xref not found") != std::string::npos || m.find("can't find startxref") != std::string::npos) res = "notfound";
+            else if (m.find("xref not found") != std::string::npos || m.find("can't find startxref") != std::string::npos ||
+                     m.find("error reading xref") != std::string::npos) res = "notfound";
             else res = "damaged";
         } catch (std::logic_error& e) {
             res = std::string("other:logic_error:") + e.what();
